@@ -284,7 +284,12 @@ class M3(M):
 class M4(MCallerHttp):
     """a caller whose components live under prefixes that differ only in their slashes ('/srv' + 'list' and
     '/srv/' + 'list' are two addresses)"""
-    _HTTP_PREFIX_MAP = {'s1': '/srv', 's2': '/srv/', 's3': 'srv', 's4': '/Srv'}
+    # (... and a component whose name has a comma in it, next to a component called like one of its halves)
+    _HTTP_PREFIX_MAP = {'s1': '/srv', 's2': '/srv/', 's3': 'srv', 's4': '/Srv', 'srv,eu': '/eu/srv', 'eu': '/eu'}
+
+    @method_http(None, 'srv,eu')
+    def call_s5(self):
+        return self.get_conn().get("list")
 
     @method_http(None, 's1')
     def call_s1(self):
@@ -686,7 +691,7 @@ def _run_history(ctx, rng, case):
             ctx.count("wrappers_of_a_derived_caller_class_called")
         # components whose prefixes read alike, all used through ONE caller object, in any order, more than once
         m4 = M4(conn if isinstance(conn, H.HttpConn) else H.HttpConn(conn))
-        names = [("call_s1", "/srv"), ("call_s2", "/srv/"), ("call_s3", "srv"), ("call_s4", "/Srv")]
+        names = [("call_s1", "/srv"), ("call_s2", "/srv/"), ("call_s3", "srv"), ("call_s4", "/Srv"), ("call_s5", "/eu/srv")]
         for name, prefix in [rng.choice(names) for _ in range(5)]:
             del log[:]
             steps.append(["caller with look-alike prefixes", name])
